@@ -25,6 +25,16 @@ def streams(tier, seed):
         for _ in range(2 if tier == "quick" else 4):
             a = uniform_new(rng, 0, ["f2"], [n], "f2", cplx=True, rand_values=True)
             out.append([a, op_phase(a, "f2", rng.choice(angles), rng.choice(angles))])
+    # the ramp is k/N by POINT INDEX: an unevenly spaced, a descending and a repeated-first-value axis give the same factors
+    for axis_kind, ax in (("uneven", ["0", "1", "3", "7/2", "8", "9"]), ("descending", ["5", "4", "3", "2", "1", "0"]),
+                          ("repeated-start", ["2", "2", "3", "5", "6", "9"]), ("negative-uneven", ["-7", "-3", "-2", "0", "1/2", "4"])):
+        for p0, p1 in ((Fraction(30), Fraction(-120)), (Fraction(0), Fraction(300)), (Fraction(-45, 2), Fraction(77))):
+            a = uniform_new(rng, 0, ["x", "f2"], [3, 6], "f2", cplx=True, rand_values=True)
+            a["coords"][1] = list(ax)
+            out.append([a, op_phase(a, "f2", p0, p1)])
+            b = uniform_new(rng, 0, ["f2", "x"], [6, 2], "f2", cplx=True, rand_values=True)
+            b["coords"][0] = list(ax)
+            out.append([b, op_phase(b, "f2", p0, p1)])
     for p0 in angles[:6]:
         for p1 in angles[:6]:
             a = uniform_new(rng, 0, ["x", "f2"], [3, 4], "f2", cplx=True, rand_values=True)
